@@ -12,7 +12,8 @@ READY = True
 
 REFINED = ["serde UBig/IBig binary (LE bytes, sign in the length parity) encode/decode",
            "postcard varint / zig-zag / length-prefixed bytes", "serde_json string quoting (plain characters)",
-           "UBig/IBig decimal text round trip", "RBig/Relaxed binary + text decode: reduce / reduce2 canonical",
+           "UBig/IBig/RBig/Relaxed text round trip (Display -> JSON string -> from_str_with_radix_prefix [+ reduce])",
+           "RBig/Relaxed binary + text decode: reduce / reduce2 canonical",
            "Repr<B>/FBig binary decode: Repr::new normalisation canonical",
            "log2_fp8 / ceil_log2_fp8 (no_std estimator): table + both functions, all u16 inputs"]
 FRONTIER = ["float text (Display without precision / from_str_native): mirrored and run, round trip not proved",
@@ -140,59 +141,14 @@ def _json_text(b):
     return t if isinstance(t, str) else None
 
 def kf(kind, args, op):
-    """input classes of the recorded C19 findings, decided from the *input* (the stream), see
-    known_findings.jsonl"""
+    """input class of the recorded C19 finding (text-path exponent overflow), decided from the *input*
+    (the stream), see known_findings.jsonl; the classes of the serde defects fixed in 78fd274 / 9f519ab
+    (zero denominator, infinity, precision, binary exponent overflow) are gone"""
     a = _inner(args, op)
     if not a:
         return False
     iop = a[0]
     try:
-        if kind == "qzero":          # rational with zero denominator
-            if iop not in ("de.q", "de.x"):
-                return False
-            b = bytes.fromhex(a[2][2:])
-            if a[1] == "pc":
-                r = _pc_int(b, 0, True)
-                if r is None:
-                    return False
-                n, i = r
-                r = _pc_int(b, i, False)
-                return r is not None and r[0] == 0
-            t = _json_text(b)
-            if t is None or "/" not in t:
-                return False
-            num, den = t.split("/", 1)
-            zero = lambda x: re.fullmatch(r"[+-]?(0x|0b|0o)?[0_]*0[0_]*", x) is not None
-            return zero(den) and re.fullmatch(r"[+-]?(0x|0b|0o)?[0-9a-fA-F_]+", num) is not None
-        if kind == "finf":           # the stored form of an infinity (0, +-1) read back as zero
-            if iop in ("sd.rinf", "sd.finf"):
-                return a[1] == "pc"
-            if iop not in ("de.r", "de.f") or a[1] != "pc":
-                return False
-            b = bytes.fromhex(a[3][2:])
-            r = _pc_int(b, 0, True)
-            if r is None or r[0] != 0:
-                return False
-            r = _pc_varint(b, r[1])
-            return r is not None and r[0] in (1, 2)          # zig-zag of -1, +1
-        if kind in ("fprec", "fexp") and iop in ("de.r", "de.f") and a[1] == "pc":
-            B = int(a[2][2:]); b = bytes.fromhex(a[3][2:])
-            r = _pc_int(b, 0, True)
-            if r is None or r[0] == 0:
-                return False
-            sig, i = r
-            r = _pc_varint(b, i)
-            if r is None:
-                return False
-            z, i = r
-            e = (z >> 1) if z % 2 == 0 else -((z + 1) >> 1)
-            ns, ne = strip_base(sig, e, B)
-            if kind == "fexp":
-                return ne > IMAX
-            if iop != "de.f" or ne > IMAX:
-                return False
-            r = _pc_varint(b, i)
-            return r is not None and r[0] != 0 and digits_in(ns, B) > r[0]
         if kind == "fexp" and iop in ("de.r", "de.f") and a[1] == "json":
             t = _json_text(bytes.fromhex(a[3][2:]))
             # an exponent literal at the edge of isize: normalisation (`exponent += shift`) or the
